@@ -48,6 +48,9 @@ type IPFSLog struct {
 }
 
 func (l *IPFSLog) Len() int {
+	l.lock.RLock()
+	defer l.lock.RUnlock()
+
 	return l.Entries.Len()
 }
 
@@ -554,6 +557,12 @@ func (l *IPFSLog) Join(otherLog iface.IPFSLog, size int) (iface.IPFSLog, error) 
 	wg := &sync.WaitGroup{}
 	wg.Add(newItems.Len())
 	var err error
+	var errLock sync.Mutex
+	setErr := func(e error) {
+		errLock.Lock()
+		err = e
+		errLock.Unlock()
+	}
 
 	// TODO: use l.concurrency ?
 	for _, k := range newItems.Keys() {
@@ -562,17 +571,17 @@ func (l *IPFSLog) Join(otherLog iface.IPFSLog, size int) (iface.IPFSLog, error) 
 
 			e := newItems.UnsafeGet(k)
 			if e == nil || !e.Defined() {
-				err = errmsg.ErrLogJoinFailed
+				setErr(errmsg.ErrLogJoinFailed)
 				return
 			}
 
 			if inErr := l.AccessController.CanAppend(e, l.Identity.Provider, &CanAppendContext{log: l}); inErr != nil {
-				err = inErr
+				setErr(inErr)
 				return
 			}
 
 			if inErr := e.Verify(l.Identity.Provider, l.IO()); inErr != nil {
-				err = errmsg.ErrSigNotVerified.Wrap(inErr)
+				setErr(errmsg.ErrSigNotVerified.Wrap(inErr))
 				return
 			}
 		}(k)
